@@ -74,6 +74,30 @@ def run(ctx, chk):
         for bb, t, fty in aw:
             n_await += 1
             cls, detail = classify_await(b, ex, t, fty)
+            if cls == "timeout":
+                # the budget is per await: `timeout(d, f)` starts a fresh budget at every call; `timeout_at(deadline, f)` does
+                # only if the deadline is computed in the same iteration as the await.  A deadline fixed before a reply
+                # loop bounds the whole exchange instead of each packet - a slow but live exchange is then cut off and,
+                # in the retry wrapper, its command is issued again.
+                e = ex.operand(t["args"][0])
+                at = [x for x in walk(e) if x[0] == "call" and x[1] == "tokio::time::timeout::timeout_at"]
+                if at:
+                    loops = [blks for h, blks in b.natural_loops().items() if bb in blks and
+                             not any(b.blocks[i]["term"]["t"] == "yield" and len(blks) < 12 for i in blks)]
+                    # (await poll loops are loops too: take those that contain a `next()` / transport call, i.e. real reply loops)
+                    loops = [blks for blks in loops if any(b.blocks[i]["term"]["t"] == "call" and
+                                                           callee(b.blocks[i]["term"]).endswith(("StreamExt::next", "::read_packet", "::into_stream"))
+                                                           for i in blks)]
+                    if loops:
+                        inner = min(loops, key=len)
+                        dl = strip_ref(at[0][2][0])
+                        def_in_loop = False
+                        for x in walk(dl):
+                            if x[0] == "call" and len(x) > 3 and isinstance(x[3], int) and x[3] in inner:
+                                def_in_loop = True
+                        chk.require(def_in_loop, "C10-a/per-await-budget", "%s bb%d" % (root.rsplit("::", 2)[-1] if "::" in root else root, bb),
+                                    "the await inside a reply loop is bounded by a deadline computed outside the loop (%s): the budget "
+                                    "covers the whole exchange, not each packet" % show(dl)[:80], "timeout(d, ..) per await", t.get("sp"))
             if cls == "raw":
                 raw_fns.setdefault(root, []).append((bb, detail, t.get("sp"), b))
             else:
